@@ -150,6 +150,9 @@ def boundary(rng, case, idx):
         quantum = request_quantum(base_, s.contents)
         if base_ == 'U':
             quantum = cf.q          # activity requests and totals are compared after rounding to 1e-10 U
+        # ... and what the source holds is itself only known to one storage quantum per substance
+        from pv.handlers import storage_noise_in
+        quantum = max(quantum, storage_noise_in(s.contents, base_))
         return m_ > 1e4 * max(quantum, 1e-300)
 
     for base in R.BASES:
